@@ -483,6 +483,8 @@ class FieldLoop(Contract):
                 ('the member type keeps its size', F(c, st, ft, 'ct_size') == F(c, entry, ft, 'ct_size')),
                 ('the aggregate keeps its kind and flags',
                  z3.And(F(c, st, c['ct'], 'ct_flags') == F(c, entry, c['ct'], 'ct_flags'),
+                        F(c, st, c['ct'], 'ct_flags_mut') == F(c, entry, c['ct'], 'ct_flags_mut'),
+                        F(c, st, ft, 'ct_flags_mut') == F(c, entry, ft, 'ct_flags_mut'),
                         c.valid(c['ct'], 104), c.valid(ft, 104))),
                 ('no error so far, no out-of-class event', z3.And(st.err == entry.err, events(st) == events(entry)))]
 
@@ -571,6 +573,28 @@ class FieldLoop(Contract):
 
 
 R.add(FieldLoop)
+
+
+class VarFlagLoop(FieldLoop):
+    """the same iteration, looked at for C20: the mark 'ends in a flexible array' (CT_WITH_VAR_ARRAY), which makes
+    ffi.new size the allocation from the initializer, is propagated from members exactly"""
+    name = 'b_complete_struct_or_union_lock_held#var-array-flag'
+
+    def post(self, c):
+        st0, st1 = c.old, c.new
+        v0 = {k: c[k] for k in LOCALS}
+        m = Member(c, st0, v0)
+        mut0, mut1 = F(c, st0, c['ct'], 'ct_flags_mut'), F(c, st1, c['ct'], 'ct_flags_mut')
+        member_var = z3.Or(m.flexible, z3.And(m.is_aggr, m.size >= 0,
+                                              (F(c, st0, m.ftype, 'ct_flags_mut') & CT_WITH_VAR_ARRAY_MUT) != 0))
+        return [('marked as ending in a flexible array iff it was, or the member is a flexible array or a struct/union so marked',
+                 ((mut1 & CT_WITH_VAR_ARRAY_MUT) != 0) == z3.Or((mut0 & CT_WITH_VAR_ARRAY_MUT) != 0, member_var))]
+
+    def post_goto(self, c, label):
+        return []
+
+
+R.add(VarFlagLoop)
 
 
 class AnonLoop(Contract):
